@@ -87,6 +87,52 @@ func SyncAddr(p unsafe.Pointer) {
 	Release(c)
 }
 
+// readAccess records a read by the current goroutine and reports a race with
+// the last writer when no happens-before edge orders write and read.
+func readAccess(loc unsafe.Pointer, site string) {
+	if loc == nil || s.cur == nil {
+		return
+	}
+	g := s.cur
+	if len(g.vc) <= g.id || g.vc[g.id] == 0 {
+		g.tick()
+	}
+	if w, ok := s.writes[loc]; ok && w.gid != g.id && w.clk > g.vc.get(w.gid) {
+		reportRace("map-read-write", w.site, site, w.name, g.name)
+	}
+	if s.reads == nil {
+		s.reads = map[unsafe.Pointer]*readSet{}
+	}
+	rs := s.reads[loc]
+	if rs == nil {
+		rs = &readSet{}
+		s.reads[loc] = rs
+	}
+	for len(rs.clk) <= g.id {
+		rs.clk = append(rs.clk, 0)
+		rs.site = append(rs.site, "")
+	}
+	rs.clk[g.id] = g.vc[g.id]
+	rs.site[g.id] = site
+}
+
+// readSet is the vector of the last read of a location by every goroutine.
+type readSet struct {
+	clk  VC
+	site []string
+}
+
+func reportRace(kind, siteA, siteB, nameA, nameB string) {
+	key := kind + "@" + minStr(siteA, siteB) + "+" + maxStr(siteA, siteB)
+	if s.raceSeen == nil {
+		s.raceSeen = map[string]bool{}
+	}
+	if !s.raceSeen[key] && len(s.stats.Races) < 20 {
+		s.raceSeen[key] = true
+		s.stats.Races = append(s.stats.Races, fmt.Sprintf("%s|%s|%s|goroutines %s and %s", kind, siteA, siteB, nameA, nameB))
+	}
+}
+
 type lastWrite struct {
 	gid  int
 	clk  uint64
@@ -108,13 +154,14 @@ func writeAccess(loc unsafe.Pointer, kind, site string) {
 		g.tick()
 	}
 	if w, ok := s.writes[loc]; ok && w.gid != g.id && w.clk > g.vc.get(w.gid) {
-		key := kind + "@" + minStr(w.site, site) + "+" + maxStr(w.site, site)
-		if s.raceSeen == nil {
-			s.raceSeen = map[string]bool{}
-		}
-		if !s.raceSeen[key] && len(s.stats.Races) < 20 {
-			s.raceSeen[key] = true
-			s.stats.Races = append(s.stats.Races, fmt.Sprintf("%s|%s|%s|goroutines %s and %s", kind, w.site, site, w.name, g.name))
+		reportRace(kind, w.site, site, w.name, g.name)
+	}
+	// write after an unordered read by another goroutine
+	if rs := s.reads[loc]; rs != nil && kind == "map-write" {
+		for gid, c := range rs.clk {
+			if gid != g.id && c > 0 && c > g.vc.get(gid) {
+				reportRace("map-read-write", rs.site[gid], site, s.all[gid].name, g.name)
+			}
 		}
 	}
 	s.writes[loc] = lastWrite{g.id, g.vc[g.id], site, g.name}
@@ -143,4 +190,14 @@ func MW[M ~map[K]V, K comparable, V any](m M, site string) {
 	}
 	// the map header pointer identifies the map whatever variable holds it
 	writeAccess(*(*unsafe.Pointer)(unsafe.Pointer(&m)), "map-write", site)
+}
+
+// MR is inserted by the rewriter before statements that read a map reachable
+// through a field, element, dereference or package-level variable. Only while
+// more than one goroutine is alive (phase 1); later phases are sequential.
+func MR[M ~map[K]V, K comparable, V any](m M, site string) {
+	if !s.active || s.nlive < 2 || m == nil {
+		return
+	}
+	readAccess(*(*unsafe.Pointer)(unsafe.Pointer(&m)), site)
 }
